@@ -507,6 +507,7 @@ func (u *Unit) execBuiltin(fr *Frame, b *ssa.Builtin, c *ssa.CallCommon, st *Sta
 		mt := c.Args[0].Type().Underlying().(*types.Map)
 		dn, dh, _, _ := u.mapHeaps(st, mt)
 		m := args[0].T
+		u.mapLenStep(st, mt, u.def(sel(dh, m)), u.def(sto(sel(dh, m), u.termOf(args[1]), tFalse)), u.termOf(args[1]), false)
 		st.heaps[dn] = u.def(ite(eq(m, intLit(0)), dh, sto(dh, m, sto(sel(dh, m), u.termOf(args[1]), tFalse))))
 		return Val{Typ: resT}
 	case "print", "println":
